@@ -263,3 +263,74 @@ Example C01_bytes_nonvacuous :
   parse_bytes EProgram [34; 97; 98; 99] = OErr /\
   round_bits 15 (-1)%Z = 4609434218613702656%N.
 Proof. vm_compute. repeat split. Qed.
+
+(** * Recursion depth of the expression parser (Model/ParseDepth.v, proofs in Proofs/ParseDepthProofs.v)
+
+    [C01_fuel_sufficient] bounds the MODEL's recursion by the token count, but the model's infix loop
+    [loop_e] is itself a fuel-consuming recursive function (one unit per operator) whereas the Rust
+    code runs a [while] loop inside one activation of [parse].  [parse_d] / [loop_d] are
+    [parse_e] / [loop_e] instrumented with the maximal number of simultaneously active calls of
+    [parse] -- counted only at the model calls that are recursion in expression.rs: after [(]
+    ([parse_grouped_expression]), after [fn (] ([parse_function_call]) and for the right operand of
+    an infix operator ([parse_infix]).  The prefix operator is not a recursion: [opt(parse_prefix)]
+    strips one [-] in the same activation and a second [-] is a parse error. *)
+From QV Require Import Model.ParseDepth Proofs.ParseDepthProofs.
+Local Open Scope nat_scope.
+
+(** Erasing the instrumentation gives exactly the parser of Model/ParsePanic.v (any fuel, any
+    precedence), so the depth statements are about the parser of [C01_no_panic]. *)
+Theorem C01_depth_erasure :
+  (forall f p ts, fst (parse_d f p ts) = parse_e f p ts) /\
+  (forall f p l ts, fst (loop_d f p l ts) = loop_e f p l ts) /\
+  (forall ts, fst (p_expr_d ts) = p_expr ts).
+Proof.
+  split; [|split].
+  - intros f p ts. exact (proj1 (parse_d_erase f) p ts).
+  - intros f p l ts. exact (proj2 (parse_d_erase f) p l ts).
+  - exact p_expr_d_erase.
+Qed.
+
+(** For EVERY token list the depth reached by [parse_expression] is at most
+    (number of precedence levels = 4: Lowest, Sum, Product, Exponentiation) * (nesting + 1), where
+    [paren_depth ts] -- defined on the tokens alone -- is the maximal number of unclosed [(] over the
+    prefixes of [ts].  The token count does not occur.  Between two parentheses the recursion can
+    only climb the precedence ladder (the right operand of an operator is parsed at that operator's
+    precedence and returns at the next operator that does not bind tighter), hence the factor 4; the
+    additive form "nesting + levels + c" is false of the model and of the code
+    ([C01_depth_examples]: the bound below is attained). *)
+Theorem C01_expression_depth : forall ts : list tok, expr_depth ts <= 4 * (paren_depth ts + 1).
+Proof. exact expr_depth_bound. Qed.
+
+(** The same for any fuel: the bound is a property of the recursion structure, not of the fuel. *)
+Theorem C01_expression_depth_any_fuel : forall (fuel : nat) (ts : list tok),
+  snd (parse_d fuel 0 ts) <= 4 * (paren_depth ts + 1).
+Proof. exact parse_d_depth_top. Qed.
+
+(** Without parentheses -- whatever the length, the operators and the prefix signs -- at most 4. *)
+Corollary C01_expression_depth_no_parens : forall ts : list tok,
+  (forall t, In t ts -> t <> TLParen) -> expr_depth ts <= 4.
+Proof. exact expr_depth_no_paren. Qed.
+
+(** A chain [1 + 1 + ... + 1] with ANY number [n] of operators is parsed iteratively: depth exactly 2
+    for n >= 1 (the top activation, and one activation per right operand, one after the other). *)
+Theorem C01_operator_chain_depth : forall n : nat, expr_depth (plus_chain n) = 1 + Nat.min n 1.
+Proof. exact plus_chain_depth. Qed.
+
+(** Parenthesis nesting IS recursion: [n] pairs of parentheses around a number reach depth > n. *)
+Theorem C01_paren_nesting_depth : forall n : nat, n + 1 <= expr_depth (nested_parens n).
+Proof. exact nested_parens_depth. Qed.
+
+(** Concrete instances: 1000 operators (2001 tokens, accepted) at depth 2; 200 nested parentheses at
+    depth 201; the precedence ladder [1+1*1^(1+1*1^( ... ))] with 50 parentheses attains the bound
+    4*(50+1) = 204 > 50 + 4 + 100; 300 prefix signs: an error found at depth 1. *)
+Example C01_depth_examples :
+  length (plus_chain 1000) = 2001 /\ all_consumed (p_expr (plus_chain 1000)) = OOk /\
+  expr_depth (plus_chain 1000) = 2 /\ paren_depth (plus_chain 1000) = 0 /\
+  all_consumed (p_expr (nested_parens 200)) = OOk /\
+  expr_depth (nested_parens 200) = 201 /\ paren_depth (nested_parens 200) = 200 /\
+  all_consumed (p_expr (ladder 50)) = OOk /\
+  expr_depth (ladder 50) = 204 /\ paren_depth (ladder 50) = 50 /\
+  minus_run 0 0 (minus_prefix 300) = 300 /\ p_expr_d (minus_prefix 300) = (Err, 1) /\
+  p_expr_d (minus_prefix 1) = (Ok (ENeg (ENum false (VInt 1))) [], 1) /\
+  expr_depth [TInt 1; TOp OPlus; TOp OMinus; TInt 1] = 2.
+Proof. vm_compute. repeat split. Qed.
